@@ -224,7 +224,8 @@ pub fn c03(v: &View, px: &PosIndex, out: &mut Vec<String>) {
             break;
         }
         // code point slicing equals byte slicing
-        if let (Some(ce), Some(txt)) = (cend, v.text(i)) {
+        // (quadratic, so only for short sources; the two comparisons above already pin both ends)
+        if let (true, Some(ce), Some(txt)) = (v.src.len() < 4096, cend, v.text(i)) {
             if ce >= t.cstart {
                 let by_cp: String = v
                     .src
@@ -232,7 +233,7 @@ pub fn c03(v: &View, px: &PosIndex, out: &mut Vec<String>) {
                     .skip(t.cstart as usize)
                     .take((ce - t.cstart) as usize)
                     .collect();
-                if v.src.len() < 4096 && by_cp != txt {
+                if by_cp != txt {
                     out.push(format!("charoff.slice:{:?}", t.ty));
                     break;
                 }
